@@ -204,13 +204,14 @@ def guarded(ctx, check, case):
 
 class Part:
     def __init__(self, name, kind, check=None, cases=None, strategy=None, run=None,
-                 examples=None, shards=None, exhaustive=False, replayable=True, chunk=None):
+                 examples=None, shards=None, exhaustive=False, replayable=True, chunk=None, shrink=True):
         self.name, self.kind, self.check = name, kind, check
         self.cases, self.strategy, self.run = cases, strategy, run
         self.examples = examples or {"quick": 200, "thorough": 2000}
         self.shards = shards or {"quick": 1, "thorough": 16}
         self.exhaustive = exhaustive
         self.chunk = chunk
+        self.shrink = shrink      # False for parts whose cases cost seconds each: a failure is reported as generated
 
 
 # ---------------------------------------------------------------------------------------------
@@ -265,7 +266,7 @@ def _run_hyp_shard(args):
     try:
         for _round in range(MAX_BUCKETS):
             # only the first failure of a shard is shrunk (the shrinker may take minutes); further root causes are reported unshrunk
-            phases = [Phase.generate, Phase.shrink] if _round == 0 else [Phase.generate]
+            phases = [Phase.generate, Phase.shrink] if (_round == 0 and part.shrink) else [Phase.generate]
             test = given(strat)(body)
             test = hypothesis.seed(shard_seed)(test)
             test = settings(max_examples=n_examples, deadline=None, database=None, derandomize=False,
